@@ -4,7 +4,8 @@ from .c05 import corpus_requests
 
 RULE = ("`vcdcut <opts> <vars> <realmap> <body> <k> <lb>`: the complete generated file and the file cut after k body bytes are both loaded "
         "(real code, each load under catch_unwind); the reply is `ok` when the truncated load is a prefix of the complete one in the sense of "
-        "the property (stronger relation at line boundaries of line-disciplined files), `err`, or panic. The Lean model computes the same from its own "
+        "the property, `err`, or panic; at line boundaries of line-disciplined files the reply is `ok:<loaded waveform>` and must EQUAL the waveform the lines "
+        "present denote (token interpreter + Spec.run of the prefix; not demanded where a C01 finding class F5a / F24 applies). The Lean model computes the same from its own "
         "loads. EVERY cut offset of every generated body is tried (exhaustive per body), single-threaded path, reader and multi-threaded. "
         "non-trivial = the truncated load succeeds with at least one time step; distinct = distinct (request, reply)")
 
@@ -63,12 +64,23 @@ def run(ctx):
                 if len(parts) > 1 and parts[1] in ("err",):
                     parts[1] = "fail"
                 m = "\t".join(parts)
+            # line-boundary cuts carry the loaded waveform (`ok:<dump>`); where the exactness specification does not apply
+            # (`ok:-`) only the prefix relation is demanded
+            parts = m.split("\t")
+            if len(parts) > 1 and parts[1] == "ok:-":
+                parts[1] = "ok"
+                if parts[0].startswith("ok:"):
+                    parts[0] = "ok"
+                if i.startswith("ok:"):
+                    i = "ok"
+                m = "\t".join(parts)
             impl2.append(i)
             model2.append(m)
-        core.compare_streams(res, rq, impl2, model2, is_nontrivial=lambda r, i: i == "ok",
+        core.compare_streams(res, rq, impl2, model2, is_nontrivial=lambda r, i: i.startswith("ok"),
                              label="VcdBody model ~ truncated loads", sample_every=max(1, len(rq) // 8))
         res.count("cuts", len(rq))
         for cls in ("ok", "err", "panic", "fail"):
-            res.count("impl_" + cls, sum(1 for i in impl2 if i == cls))
+            res.count("impl_" + cls, sum(1 for i in impl2 if i == cls or i.startswith(cls + ":")))
+        res.count("line_boundary_exact", sum(1 for i in impl2 if i.startswith("ok:")))
     return core.finish(res, proof, rule=RULE, exhaustive=True,
                        extra_cov=dict(exhaustive_scope="every truncation offset of each generated body"))
